@@ -149,6 +149,8 @@ def run_check(pid, tier, seed, repo):
     consts, changed = extract.regenerate(repo)
     ctx.consts = consts
     ok, log = lake_build()
+    if ok and ob["imports"]:
+        ok, log = lake_build(ob["imports"])
     lean_failed = []
     if not ok:
         lean_failed.append("lake build failed: " + log[-1500:])
@@ -228,6 +230,10 @@ def run_check(pid, tier, seed, repo):
         path = write_replay(pid, seed, payload)
         print(f"VIOLATION property={pid} replay={path} no-failing-input-found")
         rc = 1
+    if rc == 0:
+        stale = os.path.join(VERIF, "replays", f"{pid}-{seed}.json")
+        if os.path.exists(stale):
+            os.remove(stale)
     wall = time.time() - ctx.t0
     ev = {
         "property_id": pid, "tier": tier, "seed": seed, "level": "proof",
